@@ -28,9 +28,21 @@ def main(argv):
     except core.Infra as e:
         print('INFRASTRUCTURE FAILURE:', e)
         return 2
-    except Exception:
+    except Exception as e:
         traceback.print_exc()
-        return 2
+        frames = traceback.extract_tb(e.__traceback__)
+        repo = os.path.realpath(os.environ.get('DCMSTACK_REPO', '/repo')) + os.sep
+        inner = [f for f in frames if os.path.realpath(f.filename).startswith(repo)]
+        if not inner:
+            return 2
+        # the implementation raised where no generated (valid) input may make it raise and the
+        # harness had no handler: the property is no longer shown to hold; the input is not in hand
+        rep = core.Report(pid, tier)
+        rep.notes.append('check aborted by an exception raised inside the implementation')
+        rep.unproved('the implementation raised %r at %s:%d (%s) during the check; run aborted' % (
+            e, inner[-1].filename, inner[-1].lineno, inner[-1].name),
+            {'tag': 'harness:implementation-exception', 'traceback': traceback.format_exception(type(e), e, e.__traceback__)[-12:]})
+        return rep.finish()
 
 
 if __name__ == '__main__':
